@@ -9,7 +9,7 @@ ID = "C05"
 LEVEL = "exploration"
 RULE = ("evaluation = one (operator, left operand, right operand) triple whose operands reach the operator through "
         "run-time variables; enumerated part = every operator (+ - * / % < <= > >= == != on the 16 kind pairs, & | xor << >> "
-        "on the 9 non-float pairs, unary - and !) x ALL pairs of the boundary-value set of each kind; random part = "
+        "on the 9 non-float pairs, unary - and !) x ALL pairs of the boundary-value set of each kind, plus every comparison of an integer with the doubles 0, 1 and 2 ulps (and 0.5) on either side of it in both operand orders; random part = "
         "Hypothesis operands. Oracle = exact arithmetic in Python ints / IEEE doubles + the statement's promotion table; "
         "printed text AND run-time kind (typed-print hook) must match, or the run must stop with a failure where the exact "
         "result is undefined/unrepresentable. Non-trivial = an operand is an extreme of its kind, or the kinds differ, or the "
@@ -193,6 +193,21 @@ def enumerated(tier, seed):
                     cases += [{"op": op, "pairs": c} for c in chunks(pairs, 100)]
     for k in ("int", "bigint", "float"):
         cases.append({"op": "neg", "pairs": [(a, None) for a in B(k)]})
+    # comparisons at their own boundary: an integer against the doubles on either side of it (1 and 2 ulps away) and against
+    # the double that equals it, in both operand orders
+    import math
+    for k in ("int", "bigint", "byte"):
+        pairs = []
+        for a in B(k) + [Num(k, v) for v in (3, 100, 255) if num.in_range(k, v)] + ([Num(k, v) for v in (435, -1000000, 12345678)] if k != "byte" else []):
+            f = float(a.v)
+            if abs(f) > 1e300:
+                continue
+            fs = {f, math.nextafter(f, math.inf), math.nextafter(f, -math.inf), math.nextafter(math.nextafter(f, math.inf), math.inf),
+                  math.nextafter(math.nextafter(f, -math.inf), -math.inf), f + 0.5, f - 0.5}
+            for x in sorted(fs):
+                pairs += [(a, Num("float", x)), (Num("float", x), a)]
+        for op in CMP:
+            cases += [{"op": op, "pairs": c} for c in chunks(pairs, 100)]
     return cases
 
 
@@ -217,7 +232,23 @@ def random_case(draw):
     kinds = num.KINDS if grp != "bit" else ("int", "bigint", "byte")
     k1, k2 = draw(st.sampled_from(kinds)), draw(st.sampled_from(kinds))
     op = draw(st.sampled_from({"arith": ARITH, "cmp": CMP, "bit": BIT}[grp]))
-    return {"op": op, "pairs": [(draw(operand(k1)), draw(operand(k2)))]}
+    a = draw(operand(k1))
+    if grp == "cmp" and draw(st.integers(0, 9)) < 4:
+        # the second operand sits next to the first one: comparisons are decided at their own boundary
+        import math
+        d = draw(st.integers(-2, 2))
+        if k2 == "float":
+            x = float(a.v)
+            for _ in range(abs(d)):
+                x = math.nextafter(x, math.inf if d > 0 else -math.inf)
+            b = Num("float", x) if x == x and abs(x) != math.inf else draw(operand(k2))
+        else:
+            lo, hi = num.RANGE[k2]
+            base = a.v if k1 != "float" else (int(a.v) if abs(a.v) < 1e38 else 0)
+            b = Num(k2, min(hi, max(lo, base + d)))
+        pair = (a, b) if draw(st.booleans()) else (b, a)
+        return {"op": op, "pairs": [pair]}
+    return {"op": op, "pairs": [(a, draw(operand(k2)))]}
 
 
 def strategy(tier):
